@@ -450,11 +450,41 @@ fn random_policy(rng: &mut Rng) -> Pivots {
 fn random_lane(rng: &mut Rng, n: usize) -> Vec<u8> {
     let alpha = *rng.pick(&[1usize, 2, 3, 5, 16, 200]);
     let mut v: Vec<u8> = (0..n).map(|_| rng.below(alpha) as u8).collect();
-    match rng.below(6) {
+    match rng.below(9) {
         0 => v.sort_unstable(),
         1 => {
             v.sort_unstable();
             v.reverse()
+        }
+        6 | 7 | 8 if n >= 2 => {
+            // sorted (or reverse sorted) except for ONE element out of place: the head, the tail, or a random
+            // element moved somewhere else; or a rotation of a sorted lane
+            v.sort_unstable();
+            if rng.chance(0.3) {
+                v.reverse();
+            }
+            match rng.below(4) {
+                0 => {
+                    // a larger element placed first
+                    let j = 1 + rng.below(n - 1);
+                    let x = v.remove(j);
+                    v.insert(0, x);
+                }
+                1 => {
+                    let j = rng.below(n - 1);
+                    let x = v.remove(j);
+                    v.push(x);
+                }
+                2 => {
+                    let (a, b) = (rng.below(n), rng.below(n));
+                    let x = v.remove(a);
+                    v.insert(b.min(v.len()), x);
+                }
+                _ => {
+                    let r = rng.below(n);
+                    v.rotate_left(r);
+                }
+            }
         }
         2 => {
             // organ pipe
@@ -1127,6 +1157,44 @@ fn main() {
                 drop(accc);
                 acc.exact_nontrivial += cnt;
                 acc.count_n("pivot_sequences", cnt);
+            }
+        });
+        // (b2) long request lists (64..160 entries, far more than the array has positions) with out-of-range members
+        r.section("oob_bulk_long_requests", r.args.n(3_000, 100_000), |k, rng, acc| {
+            let n = rng.below(14);
+            let data: Vec<Tracked> = (0..n).map(|i| Tracked { key: rng.below(4) as u8, id: i as u16 }).collect();
+            let len = 64 + rng.below(97);
+            let noob = *rng.pick(&[1usize, 1, 2, 5, len]);
+            let mut req: Vec<usize> = (0..len).map(|_| if n == 0 { 0 } else { rng.below(n) }).collect();
+            let oob = oob_positions(n);
+            for _ in 0..noob.min(len) {
+                let at = rng.below(len);
+                req[at] = *rng.pick(&oob);
+            }
+            if n == 0 {
+                // every position is out of range for an empty array
+                for x in req.iter_mut() {
+                    *x = *rng.pick(&oob);
+                }
+            }
+            let rmode = k as usize % 3;
+            set_pivots(random_policy(rng));
+            let mut arr = Array1::from(data.clone());
+            must_panic(
+                acc,
+                "get_many_from_sorted_mut (long request list)",
+                || J::obj(vec![("n", J::u(n)), ("request_len", J::u(len)), ("out_of_range_members", J::A(req.iter().filter(|&&x| x >= n).take(6).map(|x| J::s(format!("{}", x))).collect())), ("request_array", J::s(["owned contiguous", "reversed view", "stepped view"][rmode]))]),
+                || with_request(&req, rmode, |reqa| arr.get_many_from_sorted_mut(&reqa)),
+            );
+            acc.nontrivial(h64(&(n, &req, rmode)));
+            // the in-range twin of the same length must be answered
+            if n > 0 {
+                let good: Vec<usize> = req.iter().map(|&x| if x >= n { x % n } else { x }).collect();
+                let mut arr2 = Array1::from(data.clone());
+                acc.eval();
+                if catch(|| with_request(&good, rmode, |reqa| arr2.get_many_from_sorted_mut(&reqa).len())).is_err() {
+                    acc.violation("no_panic_in_range", None, J::obj(vec![("op", J::s("get_many_from_sorted_mut (long request list)")), ("n", J::u(n)), ("request_len", J::u(len))]));
+                }
             }
         });
         // (c) partition with out-of-range pivot, incl. strided views
